@@ -271,6 +271,86 @@ def run_config(case, ctx: Ctx) -> None:
         shutil.rmtree(root, ignore_errors=True)
 
 
+# ------------------------------------------------------------------------------------------ look-alike sibling names
+
+NAMEPAIRS = [("dev_db", "DEV1DB", "raw_1", "RAWX1"), ("dev", "DEVX", "raw", "RAWX"), ("d_", "D1", "s_", "S1"), ("Dev_Db", "DEVxDB", "Raw_1", "RAW11")]
+SIB_PRIOR = ["nothing", "database", "database+schema"]
+
+
+def _enum_siblings(tier: str):
+    for np_, cd, cs, dsib, ssib, pri, order in itertools.product(range(len(NAMEPAIRS)), [True, False], [True, False], [True, False], [True, False], range(len(SIB_PRIOR)), ["siblings-first", "siblings-last"]):
+        if not (dsib or ssib):
+            continue
+        yield {"names": np_, "create_db": cd, "create_schema": cs, "db_sibling": dsib, "schema_sibling": ssib, "prior": pri, "order": order}
+
+
+def run_siblings(case, ctx: Ctx) -> None:
+    """Objects whose names merely resemble the requested ones (differ where the requested name has `_`, or extend it) are other objects."""
+    try:
+        db_arg, sibdb, sc_arg, sibsc = NAMEPAIRS[case["names"]]
+        prior = SIB_PRIOR[case["prior"]]
+    except (IndexError, TypeError):
+        raise InvalidCase() from None
+    cd, cs = bool(case["create_db"]), bool(case["create_schema"])
+    DB, SC, SDB, SSC = db_arg.upper(), sc_arg.upper(), sibdb.upper(), sibsc.upper()
+    disc = f"create_db={int(cd)}|create_schema={int(cs)}|prior={prior}|siblings={'db' if case['db_sibling'] else ''}{'+schema' if case['schema_sibling'] else ''}|{case['order']}"
+    fs = new_instance(create_database_on_connect=cd, create_schema_on_connect=cs)
+    try:
+        bcur = fs.connect().cursor()
+
+        def make_prior():
+            if prior != "nothing":
+                bcur.execute(f"CREATE DATABASE IF NOT EXISTS {DB}")
+                if prior == "database+schema":
+                    bcur.execute(f"CREATE SCHEMA {DB}.{SC}")
+
+        def make_siblings():
+            if case["db_sibling"]:
+                bcur.execute(f"CREATE DATABASE {SDB}")
+                bcur.execute(f"CREATE SCHEMA {SDB}.{SC}")
+                bcur.execute(f"CREATE SCHEMA {SDB}.{SSC}")
+            if case["schema_sibling"] and prior != "nothing":
+                bcur.execute(f"CREATE DATABASE IF NOT EXISTS {DB}")
+                bcur.execute(f"CREATE SCHEMA {DB}.{SSC}")
+
+        for step in (make_siblings, make_prior) if case["order"] == "siblings-first" else (make_prior, make_siblings):
+            step()
+        dbs0, sch0 = _listing(fs)
+        try:
+            conn = fs.connect(db_arg, sc_arg)
+        except Exception as e:
+            ctx.fail(f"C14|siblings|connect-raises|{etype_name(e)}|{disc}", f"connect({db_arg!r}, {sc_arg!r}) with {sorted(dbs0)} / {sorted(sch0)}: {e}")
+            return
+        ctx.nontrivial = True
+        ctx.cls(f"siblings:{disc.split('|')[3]}", f"prior:{prior}", f"flags:{int(cd)}{int(cs)}")
+        if (conn.database, conn.schema) != (DB, SC):
+            ctx.fail(f"C14|siblings|reported-names|{disc}", f"{(conn.database, conn.schema)} want {(DB, SC)}")
+        want_db = prior != "nothing" or cd
+        want_sc = prior == "database+schema" or (cs and want_db)
+        dbs1, sch1 = _listing(fs)
+        if dbs1 != dbs0 | ({DB} if want_db else set()):
+            ctx.fail(f"C14|siblings|databases-after|{disc}", f"{sorted(dbs0)} -> {sorted(dbs1)}; requested {DB}, want_db={want_db}")
+        if sch1 != sch0 | ({(DB, SC)} if want_sc else set()):
+            ctx.fail(f"C14|siblings|schemas-after|{disc}", f"{sorted(sch0)} -> {sorted(sch1)}; requested {(DB, SC)}, want_sc={want_sc}")
+        o = run(conn.cursor(), "CREATE TABLE VF_PROBE (i INT)")
+        exp = "90105" if not want_db else ("90106" if not want_sc else "ok")
+        got = "ok" if o.ok else str(o.errno)
+        if got != exp:
+            ctx.fail(f"C14|siblings|unqualified-create|want={exp}|got={got}|{disc}", f"connect({db_arg!r},{sc_arg!r}) with {sorted(dbs0)} / {sorted(sch0)}: {o}")
+        elif o.ok:
+            c = fs.duck_conn.cursor()
+            where = c.execute("select upper(table_catalog), upper(table_schema) from information_schema.tables where table_name='VF_PROBE'").fetchall()
+            c.close()
+            if where != [(DB, SC)]:
+                ctx.fail(f"C14|siblings|probe-landed-elsewhere|{disc}", f"{where} want {[(DB, SC)]}")
+        if want_db and want_sc:
+            o2 = run(conn.cursor(), "SELECT CURRENT_DATABASE(), CURRENT_SCHEMA()")
+            if not o2.ok or o2.rows != [(DB, SC)]:
+                ctx.fail(f"C14|siblings|current-functions|{disc}", f"{o2} want {(DB, SC)}")
+    finally:
+        close_instance(fs)
+
+
 PROP = Prop(
     id="C14",
     facets=[
@@ -293,7 +373,23 @@ PROP = Prop(
             thorough_shards=16,
             budget_quick=100,
             budget_thorough=1200,
-        )
+        ),
+        Facet(
+            name="sibling_names",
+            strategy=None,
+            enumerate=_enum_siblings,
+            run=run_siblings,
+            rule=(
+                "Complete product: 4 requested (database, schema) name pairs containing `_` or being a prefix of another name x look-alike sibling "
+                "database and/or sibling schema already present (DEV1DB beside dev_db, RAWX1 beside raw_1, DEVX beside dev) x the two create flags x prior "
+                "state of the requested objects {nothing, database, database+schema} x creation order. Oracle: the configuration function of the main facet, "
+                "which knows objects by their exact (case-folded) names only: siblings neither satisfy nor prevent the creation of the requested objects."
+            ),
+            quick_shards=4,
+            thorough_shards=8,
+            budget_quick=60,
+            budget_thorough=300,
+        ),
     ],
     assumptions=[
         "prior state is created through an option-less session with fully qualified DDL",
